@@ -90,6 +90,14 @@ type c17ptrs struct {
 	PIf   *interface{}
 	PNil  *[]string
 	PPSet **c17ptrs
+	// values of function and channel type are nil or not like pointers are
+	NilFn    func() string
+	Fn       func() string
+	FnMap    map[string]func() string
+	AnyNilFn interface{}
+	AnyFn    interface{}
+	NilCh    chan int
+	Ch       chan int
 }
 
 func c17pointers() c17ptrs {
@@ -98,7 +106,9 @@ func c17pointers() c17ptrs {
 	var inner *c17ptrs
 	var ifc interface{}
 	set := &c17ptrs{}
-	return c17ptrs{PSl: &sl, PMap: &m, PP: &inner, PIf: &ifc, PPSet: &set}
+	fn := func() string { return "called" }
+	return c17ptrs{PSl: &sl, PMap: &m, PP: &inner, PIf: &ifc, PPSet: &set,
+		Fn: fn, FnMap: map[string]func() string{"fn": fn, "nilfn": nil}, AnyNilFn: (func() string)(nil), AnyFn: fn, Ch: make(chan int)}
 }
 
 var c17shadow = []struct{ src, want string }{
@@ -114,6 +124,8 @@ var c17shadow = []struct{ src, want string }{
 	{`{{ if true }}{{ len := nil }}[{{ isset(len) }}]{{ end }}[{{ isset(len) }}]`, "[false][true]"}, // len is a built-in
 	{`{{ v := "outer" }}{{ range i := ints(0, 1) }}{{ v := nil }}[{{ isset(v) }}]{{ end }}[{{ isset(v) }}]`, "[false][true]"},
 	{`{{ v := "x" }}{{ v = nil }}[{{ isset(v) }}]{{ v = 0 }}[{{ isset(v) }}]`, "[false][true]"},
+	// nil functions and channels are nil values
+	{`[{{ isset(pn.NilFn) }}{{ isset(pn.FnMap["nilfn"]) }}{{ isset(pn.FnMap.nilfn) }}{{ isset(pn.FnMap.absent) }}{{ isset(pn.AnyNilFn) }}{{ isset(nilfnvar) }}{{ isset(pn.Fn, pn.NilFn) }}{{ isset(pn.NilCh) }}|{{ isset(pn.Fn) }}{{ isset(pn.FnMap["fn"]) }}{{ isset(pn.AnyFn) }}{{ isset(fnvar) }}{{ isset(pn.Ch) }}{{ isset(pn.Fn, pn.Ch) }}]`, "[falsefalsefalsefalsefalsefalsefalsefalse|truetruetruetruetruetrue]"},
 }
 
 func c17run(c *fw.Ctx, idx int) {
@@ -126,6 +138,7 @@ func c17run(c *fw.Ctx, idx int) {
 		defer c.End()
 		dv := c06vars(root)
 		dv.Set("pn", c17pointers())
+		dv.Set("nilfnvar", (func() string)(nil)).Set("fnvar", func() string { return "called" })
 		out := jx.Run(map[string]string{"/t.jet": d.src}, "/t.jet", dv, root, jx.NoEscape)
 		c.Count("directed_shadowing_cases", 1)
 		if out.Failed() || out.Out != d.want {
@@ -142,15 +155,21 @@ func c17run(c *fw.Ctx, idx int) {
 	if idx%6 == 5 {
 		// two-value map lookup
 		l := c17lookups[(idx/6)%len(c17lookups)]
-		form := (idx / 6 / len(c17lookups)) % 3
+		form := (idx / 6 / len(c17lookups)) % 6
 		var src string
 		switch form {
 		case 0:
 			src = fmt.Sprintf(`{{ v, ok := %s[%s] }}[{{ ok }}]`, l.m, l.key)
 		case 1:
 			src = fmt.Sprintf(`{{ _, ok := %s[%s] }}[{{ ok }}]`, l.m, l.key)
-		default:
+		case 2:
 			src = fmt.Sprintf(`{{ ok := "x" }}{{ v := 1 }}{{ v, ok = %s[%s] }}[{{ ok }}]`, l.m, l.key)
+		case 3: // the value is discarded, ok is assigned to a variable that held the opposite
+			src = fmt.Sprintf(`{{ ok := %v }}{{ _, ok = %s[%s] }}[{{ ok }}]`, !l.present, l.m, l.key)
+		case 4:
+			src = fmt.Sprintf(`{{ ok := %v }}{{ if _, ok = %s[%s]; ok }}[true]{{ else }}[false]{{ end }}`, !l.present, l.m, l.key)
+		default:
+			src = fmt.Sprintf(`{{ ok := %v }}{{ range i := ints(0, 2) }}{{ _, ok = %s[%s] }}{{ end }}[{{ ok }}]`, !l.present, l.m, l.key)
 		}
 		c.Begin(idx, map[string]interface{}{"lookup": src, "key_present": l.present})
 		defer c.End()
